@@ -1,0 +1,234 @@
+//! verification hooks - only compiled with `--cfg may_verif`
+//!
+//! A process global `Hooks` object can be installed by a test harness. Every
+//! shared memory access that goes through the shims in this module first
+//! calls `Hooks::pre` (a schedule point) and afterwards `Hooks::post` (a trace
+//! record with the value observed / written). Blocking and time are routed
+//! through `block` / `wake` / `now_ns` so that a harness can serialise all
+//! threads and run them under a virtual clock. Without an installed `Hooks`
+//! object every shim is a plain pass-through.
+use std::panic::Location;
+use std::sync::OnceLock;
+
+pub trait Hooks: Sync {
+    /// schedule point before a shared access
+    fn pre(&self, loc: &'static Location<'static>, kind: &'static str);
+    /// record of a finished shared access, `obj` is the address of the object
+    fn post(&self, loc: &'static Location<'static>, kind: &'static str, obj: usize, val: u64);
+    /// a pure event record, never a schedule point
+    fn event(&self, name: &'static str, a: u64, b: u64);
+    /// the virtual clock
+    fn now_ns(&self) -> u64;
+    /// block the calling OS thread until wake(key) or absolute virtual deadline; true = woken
+    fn block(&self, key: usize, deadline: Option<u64>) -> bool;
+    fn wake(&self, key: usize);
+    fn spawn(&self, name: String, f: Box<dyn FnOnce() + Send + 'static>);
+    /// a key that identify the calling OS thread
+    fn thread_key(&self) -> usize;
+}
+
+static HOOKS: OnceLock<&'static dyn Hooks> = OnceLock::new();
+
+pub fn install(h: &'static dyn Hooks) {
+    let _ = HOOKS.set(h);
+}
+
+#[inline]
+pub fn hooks() -> Option<&'static dyn Hooks> {
+    HOOKS.get().copied()
+}
+
+#[inline]
+pub fn step<R>(
+    loc: &'static Location<'static>,
+    kind: &'static str,
+    obj: usize,
+    val: impl FnOnce(&R) -> u64,
+    f: impl FnOnce() -> R,
+) -> R {
+    match hooks() {
+        None => f(),
+        Some(h) => {
+            h.pre(loc, kind);
+            let r = f();
+            h.post(loc, kind, obj, val(&r));
+            r
+        }
+    }
+}
+
+/// a schedule point + trace record for a plain (non atomic) shared access
+#[inline]
+#[track_caller]
+pub fn point(kind: &'static str, obj: usize, val: u64) {
+    step(Location::caller(), kind, obj, |_| val, || ())
+}
+
+#[inline]
+pub fn event(name: &'static str, a: u64, b: u64) {
+    if let Some(h) = hooks() {
+        h.event(name, a, b)
+    }
+}
+
+/// virtual sleep, falls back to the real one
+pub fn sleep(d: std::time::Duration) {
+    match hooks() {
+        None => std::thread::sleep(d),
+        Some(h) => {
+            h.block(usize::MAX - h.thread_key(), Some(h.now_ns() + d.as_nanos() as u64));
+        }
+    }
+}
+
+pub mod atomic {
+    use super::step;
+    use std::panic::Location;
+    pub use std::sync::atomic::{fence, Ordering};
+
+    macro_rules! hooked_int {
+        ($name:ident, $std:ty, $t:ty) => {
+            #[repr(transparent)]
+            pub struct $name($std);
+            impl $name {
+                pub const fn new(v: $t) -> Self {
+                    Self(<$std>::new(v))
+                }
+                #[inline]
+                fn addr(&self) -> usize {
+                    self as *const _ as usize
+                }
+                pub fn get_mut(&mut self) -> &mut $t {
+                    self.0.get_mut()
+                }
+                pub fn into_inner(self) -> $t {
+                    self.0.into_inner()
+                }
+                #[track_caller]
+                pub fn load(&self, o: Ordering) -> $t {
+                    step(Location::caller(), "load", self.addr(), |r| *r as u64, || self.0.load(o))
+                }
+                #[track_caller]
+                pub fn store(&self, v: $t, o: Ordering) {
+                    step(Location::caller(), "store", self.addr(), |_| v as u64, || self.0.store(v, o))
+                }
+                #[track_caller]
+                pub fn swap(&self, v: $t, o: Ordering) -> $t {
+                    step(Location::caller(), "swap", self.addr(), |r| *r as u64, || self.0.swap(v, o))
+                }
+                #[track_caller]
+                pub fn compare_exchange(&self, c: $t, n: $t, s: Ordering, f: Ordering) -> Result<$t, $t> {
+                    step(
+                        Location::caller(),
+                        "cas",
+                        self.addr(),
+                        |r: &Result<$t, $t>| r.is_ok() as u64,
+                        || self.0.compare_exchange(c, n, s, f),
+                    )
+                }
+                #[track_caller]
+                pub fn compare_exchange_weak(&self, c: $t, n: $t, s: Ordering, f: Ordering) -> Result<$t, $t> {
+                    // never fails spuriously under the hooks
+                    step(
+                        Location::caller(),
+                        "cas",
+                        self.addr(),
+                        |r: &Result<$t, $t>| r.is_ok() as u64,
+                        || self.0.compare_exchange(c, n, s, f),
+                    )
+                }
+            }
+            impl std::fmt::Debug for $name {
+                fn fmt(&self, f: &mut std::fmt::Formatter) -> std::fmt::Result {
+                    self.0.fmt(f)
+                }
+            }
+            impl Default for $name {
+                fn default() -> Self {
+                    Self(<$std>::default())
+                }
+            }
+        };
+    }
+    macro_rules! hooked_arith {
+        ($name:ident, $t:ty) => {
+            impl $name {
+                #[track_caller]
+                pub fn fetch_add(&self, v: $t, o: Ordering) -> $t {
+                    step(Location::caller(), "fetch_add", self.addr(), |r| *r as u64, || self.0.fetch_add(v, o))
+                }
+                #[track_caller]
+                pub fn fetch_sub(&self, v: $t, o: Ordering) -> $t {
+                    step(Location::caller(), "fetch_sub", self.addr(), |r| *r as u64, || self.0.fetch_sub(v, o))
+                }
+                #[track_caller]
+                pub fn fetch_or(&self, v: $t, o: Ordering) -> $t {
+                    step(Location::caller(), "fetch_or", self.addr(), |r| *r as u64, || self.0.fetch_or(v, o))
+                }
+                #[track_caller]
+                pub fn fetch_and(&self, v: $t, o: Ordering) -> $t {
+                    step(Location::caller(), "fetch_and", self.addr(), |r| *r as u64, || self.0.fetch_and(v, o))
+                }
+            }
+        };
+    }
+    hooked_int!(AtomicUsize, std::sync::atomic::AtomicUsize, usize);
+    hooked_arith!(AtomicUsize, usize);
+    hooked_int!(AtomicIsize, std::sync::atomic::AtomicIsize, isize);
+    hooked_arith!(AtomicIsize, isize);
+    hooked_int!(AtomicU64, std::sync::atomic::AtomicU64, u64);
+    hooked_arith!(AtomicU64, u64);
+    hooked_int!(AtomicBool, std::sync::atomic::AtomicBool, bool);
+
+    #[repr(transparent)]
+    pub struct AtomicPtr<T>(std::sync::atomic::AtomicPtr<T>);
+    impl<T> AtomicPtr<T> {
+        pub const fn new(v: *mut T) -> Self {
+            Self(std::sync::atomic::AtomicPtr::new(v))
+        }
+        #[inline]
+        fn addr(&self) -> usize {
+            self as *const _ as usize
+        }
+        pub fn get_mut(&mut self) -> &mut *mut T {
+            self.0.get_mut()
+        }
+        #[track_caller]
+        pub fn load(&self, o: Ordering) -> *mut T {
+            step(Location::caller(), "load", self.addr(), |r| *r as usize as u64, || self.0.load(o))
+        }
+        #[track_caller]
+        pub fn store(&self, v: *mut T, o: Ordering) {
+            step(Location::caller(), "store", self.addr(), |_| v as usize as u64, || self.0.store(v, o))
+        }
+        #[track_caller]
+        pub fn swap(&self, v: *mut T, o: Ordering) -> *mut T {
+            step(Location::caller(), "swap", self.addr(), |r| *r as usize as u64, || self.0.swap(v, o))
+        }
+        #[track_caller]
+        pub fn compare_exchange(&self, c: *mut T, n: *mut T, s: Ordering, f: Ordering) -> Result<*mut T, *mut T> {
+            step(
+                Location::caller(),
+                "cas",
+                self.addr(),
+                |r: &Result<*mut T, *mut T>| r.is_ok() as u64,
+                || self.0.compare_exchange(c, n, s, f),
+            )
+        }
+        #[track_caller]
+        pub fn compare_exchange_weak(&self, c: *mut T, n: *mut T, s: Ordering, f: Ordering) -> Result<*mut T, *mut T> {
+            step(
+                Location::caller(),
+                "cas",
+                self.addr(),
+                |r: &Result<*mut T, *mut T>| r.is_ok() as u64,
+                || self.0.compare_exchange(c, n, s, f),
+            )
+        }
+    }
+    impl<T> std::fmt::Debug for AtomicPtr<T> {
+        fn fmt(&self, f: &mut std::fmt::Formatter) -> std::fmt::Result {
+            self.0.fmt(f)
+        }
+    }
+}
